@@ -98,7 +98,7 @@ def run(tier, seed):
                        "numeric maximum-disorientation constants per group are checked by the oracle only"]
     if not ck.step_sanity():
         return ck.finish()
-    ck.step_prove(["groups", "quatkernels", "conversions"], "Props/C04.v", extra=["Model/SymDot.vo", "Model/RotArr.vo"])
+    ck.step_prove(["groups", "quatkernels", "conversions"], "Props/C04.v", extra=["Model/SymDot.vo", "Model/RotArr.vo", "Model/KFloat.vo", "Proofs/SymDotK.vo", "Model/ITARef.vo"])
     out = run_impl("c04.py", {"seed": seed, "n": 40 if tier == "quick" else 200, "thorough": tier != "quick"},
                    timeout=3000)
     cases = out["cases"]
